@@ -51,9 +51,16 @@ var _ verifbridge.Tracer = (*Tracer)(nil)
 func NewTracer() *Tracer { return &Tracer{} }
 
 // Install makes t the process-wide tracer.
-func (t *Tracer) Install()   { verifbridge.SetTracer(t) }
-func Uninstall()             { verifbridge.SetTracer(nil) }
-func (t *Tracer) Reset()     { t.mu.Lock(); t.Events = nil; t.IOs = nil; t.seq = 0; t.FailHit = false; t.mu.Unlock() }
+func (t *Tracer) Install() { verifbridge.SetTracer(t) }
+func Uninstall()           { verifbridge.SetTracer(nil) }
+func (t *Tracer) Reset() {
+	t.mu.Lock()
+	t.Events = nil
+	t.IOs = nil
+	t.seq = 0
+	t.FailHit = false
+	t.mu.Unlock()
+}
 func (t *Tracer) IOCount() int { t.mu.Lock(); defer t.mu.Unlock(); return len(t.IOs) }
 
 func (t *Tracer) mine(owner any) bool {
@@ -170,3 +177,37 @@ var kvEvents = map[string]bool{"Reset": true, "BeginCall": true, "Begin": true, 
 
 // KeepKV selects the events consumed by TraceKV.tla.
 func KeepKV(e Ev) bool { return kvEvents[e["ev"].(string)] }
+
+var boltEvents = map[string]bool{"Reset": true, "Reopen": true, "LoadFreelistPage": true, "LoadFreelistScan": true, "BeginRead": true,
+	"EndRead": true, "BeginWrite": true, "Free": true, "Alloc": true, "AllocRefused": true, "MetaWrite": true, "IO": true,
+	"CommitDone": true, "RollbackUser": true, "RollbackPhysical": true, "EndWrite": true, "Decoded": true, "Stats": true,
+	"Check": true, "CrashProbe": true}
+
+// KeepBolt selects the events consumed by TraceBolt.tla.
+func KeepBolt(e Ev) bool { return boltEvents[e["ev"].(string)] }
+
+// NormalizeBolt fills the fields TraceBolt.tla reads unconditionally.
+func NormalizeBolt(evs []Ev) []Ev {
+	out := make([]Ev, 0, len(evs))
+	for _, e := range evs {
+		if !KeepBolt(e) {
+			continue
+		}
+		c := Ev{}
+		for k, v := range e {
+			c[k] = v
+		}
+		switch c["ev"] {
+		case "BeginRead", "EndRead", "BeginWrite", "RollbackUser", "RollbackPhysical", "EndWrite", "LoadFreelistPage", "LoadFreelistScan":
+			_, hasFree := c["free"]
+			c["nofl"] = !hasFree
+			if !hasFree {
+				c["free"], c["pend"], c["readers"], c["freeN"], c["pendN"] = []int{}, []int{}, []int{}, 0, 0
+			}
+			_, mapped := c["datasz"]
+			c["nomap"] = !mapped
+		}
+		out = append(out, c)
+	}
+	return out
+}
